@@ -290,7 +290,7 @@ def AcrossInv (out : Option (Nat × Str × Lexed)) (seen : List Str) : Prop :=
 theorem latestAcrossGo_spec (rest : List (List Str)) :
     ∀ (i : Nat) (out : Option (Nat × Str × Lexed)) (seen : List Str),
       (∀ st ∈ rest, ∀ v ∈ st, convName v = true) → AcrossInv out seen →
-      ∃ out', latestAcrossGo i out rest = .ok out' ∧ AcrossInv out' (seen ++ rest.flatten) := by
+      ∃ out', latestAcrossGo none i out rest = .ok out' ∧ AcrossInv out' (seen ++ rest.flatten) := by
   induction rest with
   | nil => intro i out seen _ h; exact ⟨out, rfl, by simpa using h⟩
   | cons st rest ih =>
@@ -317,7 +317,7 @@ theorem latestAcrossGo_spec (rest : List (List Str)) :
         exact ⟨p.2, hlex p hp, hc p hp, hmax p hp⟩
       have hl : lex v = .ok l := hlex (v, l) hmem
       have hcl : convLexed l = true := hc (v, l) hmem
-      simp only [hm]
+      simp only [hm, belowMin]
       cases out with
       | none =>
         simp only [AcrossInv] at hinv
@@ -347,5 +347,39 @@ theorem latestAcrossGo_spec (rest : List (List Str)) :
           · exact hall y hy
           · obtain ⟨ly, h1, h2, h3⟩ := hst y hy
             exact ⟨ly, h1, h2, good_cmpSort.trans ly l lw h2 hcl hcw h3 (by omega)⟩
+
+/-! ## the database branch enumerates the same versions -/
+
+theorem mem_insertStr (x v : Str) (l : List Str) : v ∈ insertStr x l ↔ v = x ∨ v ∈ l := by
+  induction l with
+  | nil => simp [insertStr]
+  | cons y ys ih =>
+    simp only [insertStr]
+    split
+    · simp
+    · simp only [List.mem_cons, ih]
+      constructor
+      · rintro (h | h | h)
+        · exact Or.inr (Or.inl h)
+        · exact Or.inl h
+        · exact Or.inr (Or.inr h)
+      · rintro (h | h | h)
+        · exact Or.inr (Or.inl h)
+        · exact Or.inl h
+        · exact Or.inr (Or.inr h)
+
+theorem mem_dbOrder (v : Str) (l : List Str) : v ∈ dbOrder l ↔ v ∈ l := by
+  induction l with
+  | nil => simp [dbOrder]
+  | cons x xs ih => simp only [dbOrder, mem_insertStr, ih, List.mem_cons]
+
+theorem mem_flatten_dbOrder (v : Str) (stacks : List (List Str)) :
+    v ∈ (stacks.map dbOrder).flatten ↔ v ∈ stacks.flatten := by
+  simp only [List.mem_flatten, List.mem_map]
+  constructor
+  · rintro ⟨l, ⟨st, hst, rfl⟩, hv⟩
+    exact ⟨st, hst, (mem_dbOrder v st).mp hv⟩
+  · rintro ⟨st, hst, hv⟩
+    exact ⟨dbOrder st, ⟨st, hst, rfl⟩, (mem_dbOrder v st).mpr hv⟩
 
 end EupsModel.VersionCmp
